@@ -113,7 +113,11 @@ func canon(s []span) ([]span, error) {
 	allEmpty := true
 	// Merge overlapping/adjoining elements.
 	out := s[:0]
+	merged := make([]bool, len(s)) // Elements already folded into an earlier one.
 	for i := 0; i < len(s); i++ {
+		if merged[i] {
+			continue
+		}
 		this := s[i]
 		if this.rank == empty {
 			continue
@@ -121,6 +125,9 @@ func canon(s []span) ([]span, error) {
 		allEmpty = false
 		// Merge as many as possible into this element.
 		for j := i + 1; j < len(s); j++ {
+			if merged[j] {
+				continue
+			}
 			next := s[j]
 			if !this.max.equal(next.min) { // If equal, we can merge unless both are open (handled below)
 				if len(this.max.pre) == 0 {
@@ -147,8 +154,8 @@ func canon(s []span) ([]span, error) {
 			if !equalPrerelease(this.min, this.max) || !equalPrerelease(this.min, next.min) || !equalPrerelease(this.min, next.max) {
 				continue
 			}
-			// We'll process the element now, so on the next outer loop, skip it.
-			i++
+			// We'll process the element now, so on the outer loop, skip it.
+			merged[j] = true
 			if next.rank == empty {
 				continue
 			}
